@@ -32,30 +32,26 @@ Definition select_sound_full_statement : Prop :=
   forall p g i, Reach p g -> nth_error p i = Some g ->
   exists ids, select (compile p) = Some ids /\ In (N.of_nat i) ids.
 
-Theorem select_sound_refuted_iface : ~ select_sound_full_statement.
-Proof.
-  intro H. destruct (H w1 w1_meth 2 w1_reach eq_refl) as (ids & Hs & Hin).
-  vm_compute in Hs. injection Hs as <-. vm_compute in Hin.
-  repeat (destruct Hin as [Hin|Hin]; [discriminate|]). contradiction.
-Qed.
+(* since the repair of the alias-spelling findings the historic witness is selected *)
+Theorem select_sound_alias_witness_iface :
+  Reach w1 w1_meth /\ exists ids, select (compile w1) = Some ids /\ In 2%N ids.
+Proof. split; [exact w1_reach|]. eexists. split; [vm_compute; reflexivity|]. vm_compute. tauto. Qed.
 
 (* ---- witness 2: instance F[byte] named in dead code, F[uint8] needed by main --------------------- *)
 Definition w2_main : gdecl := mkg KFunc "main" TNil true [RFunc "main" "F" (TCons (TBasic BUint8) TNil)].
 Definition w2_inst : gdecl := mkg KFunc "F" (TCons (TBasic BByte) TNil) false [].
 Definition w2 : prog := [w2_main; mkg (KHolder 1) "F" TNil false []; w2_inst].
 
-Theorem select_sound_refuted_instance : exists p g i,
-  Reach p g /\ nth_error p i = Some g /\
-  exists ids, select (compile p) = Some ids /\ ~ In (N.of_nat i) ids.
+Theorem select_sound_alias_witness_instance :
+  Reach w2 w2_inst /\ exists ids, select (compile w2) = Some ids /\ In 2%N ids.
 Proof.
-  exists w2, w2_inst, 2. split; [|split; [reflexivity|]].
+  split.
   - apply (R_needs w2 w2_main (RFunc "main" "F" (TCons (TBasic BUint8) TNil)) w2_inst).
     + apply R_root; [simpl; auto|reflexivity].
     + simpl. auto.
     + apply N_func; [reflexivity|]. repeat split; reflexivity.
     + simpl. auto.
-  - eexists. split; [vm_compute; reflexivity|].
-    vm_compute. intro Hin. repeat (destruct Hin as [Hin|Hin]; [discriminate|]). contradiction.
+  - eexists. split; [vm_compute; reflexivity|]. vm_compute. tauto.
 Qed.
 
 (* ---- non-vacuity: unexported method of a generic instance reached only through an interface ------- *)
